@@ -7,9 +7,9 @@ open HdVerif HdVerif.SRItems
 /-- the rows of the regenerated tables that concern one class, all in agreement -/
 structure TableOk (cls : Cls) (vtName vt : String) (req : List String) : Prop where
   ctor : Gen.srCtorValueType.lookup cls.pyName = some vtName
-  value : enumValue Gen.srValueTypes vtName = some vt
-  name : enumName Gen.srValueTypes vt = some vtName
-  known : enumHas Gen.srValueTypes vt = true
+  value : enumValue Gen.c13ValueTypes vtName = some vt
+  name : enumName Gen.c13ValueTypes vt = some vtName
+  known : enumHas Gen.c13ValueTypes vt = true
   dispatch : Gen.srDispatch.lookup vtName = some cls.pyName
   ofPy : Cls.ofPyName cls.pyName = some cls
   asserts : Gen.srFromDatasetAsserts.lookup cls.pyName = some vtName
@@ -106,7 +106,7 @@ theorem reqLoop_missing (attrs : Attrs) (req : List String) (h : ∃ k ∈ req, 
 theorem assertValueType_eq (attrs : Attrs) (vtName : String) :
     assertValueType attrs vtName =
       match Gen.srAssertHead (attrs.lookup "ValueType").isSome
-          (match attrs.lookup "ValueType", enumValue Gen.srValueTypes vtName with
+          (match attrs.lookup "ValueType", enumValue Gen.c13ValueTypes vtName with
             | some (.str s), some v => s == v
             | _, _ => false) with
       | .error e => .error e
@@ -198,28 +198,28 @@ def relPart : Option String → Attrs
 theorem base_ok {cls : Cls} {vtName vt : String} {req : List String} (T : TableOk cls vtName vt req) (name : Coded)
     (rel : Option String) (a : Attrs) (h : base cls name rel = .ok a) :
     a = [("ValueType", .str vt), ("ConceptNameCodeSequence", .code name)] ++ relPart rel ∧
-    (∀ r, rel = some r → enumHas Gen.srRelationshipTypes r = true) := by
+    (∀ r, rel = some r → enumHas Gen.c13RelationshipTypes r = true) := by
   unfold base at h
   simp only [T.ctor, T.value] at h
   cases rel with
   | none => cases h; exact ⟨rfl, by simp⟩
   | some r =>
     simp only at h
-    by_cases hr : enumHas Gen.srRelationshipTypes r = true
+    by_cases hr : enumHas Gen.c13RelationshipTypes r = true
     · rw [if_pos hr] at h; cases h; exact ⟨rfl, by intro r' e; cases e; exact hr⟩
     · rw [if_neg hr] at h; cases h
 
 /-- an unknown relationship type is the only thing `ContentItem.__init__` refuses -/
 theorem base_err {cls : Cls} {vtName vt : String} {req : List String} (T : TableOk cls vtName vt req) (name : Coded)
     (rel : Option String) (e : ErrKind) (h : base cls name rel = .error e) :
-    e = .value ∧ ∃ r, rel = some r ∧ enumHas Gen.srRelationshipTypes r = false := by
+    e = .value ∧ ∃ r, rel = some r ∧ enumHas Gen.c13RelationshipTypes r = false := by
   unfold base at h
   simp only [T.ctor, T.value] at h
   cases rel with
   | none => cases h
   | some r =>
     simp only at h
-    by_cases hr : enumHas Gen.srRelationshipTypes r = true
+    by_cases hr : enumHas Gen.c13RelationshipTypes r = true
     · rw [if_pos hr] at h; cases h
     · rw [if_neg hr] at h; cases h; exact ⟨rfl, r, rfl, by simpa using hr⟩
 
@@ -389,8 +389,8 @@ theorem axes3d_ok {n : Nat} {b : Bool} (h : Gen.scoord3dAxesCheck n = .ok b) : n
 
 theorem mkScoord_ok_iff (fl : Rat → Rat) (name : Coded) (gt : String) (p : Points) (origin fiducial rel : Option String) (it : Item)
     (h : mkScoord fl name gt p origin fiducial rel = .ok it) :
-    ∃ g, enumName Gen.srGraphicTypes gt = some g ∧ p.ndim = 2 ∧ Gen.scoordCheck g p.rows.length p.d = .ok true ∧
-      (∀ o, origin = some o → enumHas Gen.srPixelOrigins o = true) ∧
+    ∃ g, enumName Gen.c13GraphicTypes gt = some g ∧ p.ndim = 2 ∧ Gen.scoordCheck g p.rows.length p.d = .ok true ∧
+      (∀ o, origin = some o → enumHas Gen.c13PixelOrigins o = true) ∧
       it = .mk .scoord ([("ValueType", .str "SCOORD"), ("ConceptNameCodeSequence", .code name)] ++ relPart rel ++
         ([("GraphicType", .str gt), ("GraphicData", .rats (p.rows.flatten.map fl))] ++ optAttr "PixelOriginInterpretation" origin
           ++ optAttr "FiducialUID" fiducial)) none := by
@@ -400,7 +400,7 @@ theorem mkScoord_ok_iff (fl : Rat → Rat) (name : Coded) (gt : String) (p : Poi
   | ok a =>
     simp only [hb] at h
     have ha := (base_ok tableOk_scoord name rel a hb).1
-    cases hg : enumName Gen.srGraphicTypes gt with
+    cases hg : enumName Gen.c13GraphicTypes gt with
     | none => simp only [hg] at h; cases h
     | some g =>
       simp only [hg] at h
@@ -426,7 +426,7 @@ theorem mkScoord_ok_iff (fl : Rat → Rat) (name : Coded) (gt : String) (p : Poi
           rw [ha]; simp [optAttr, List.append_assoc]
         | some o =>
           simp only at h
-          by_cases ho : enumHas Gen.srPixelOrigins o = true
+          by_cases ho : enumHas Gen.c13PixelOrigins o = true
           · rw [if_pos ho] at h
             cases h
             refine ⟨by intro o' e; cases e; exact ho, ?_⟩
@@ -435,7 +435,7 @@ theorem mkScoord_ok_iff (fl : Rat → Rat) (name : Coded) (gt : String) (p : Poi
 
 theorem mkScoord3d_ok_iff (fl : Rat → Rat) (name : Coded) (gt : String) (p : Points) (fo : String) (fiducial rel : Option String) (it : Item)
     (h : mkScoord3d fl name gt p fo fiducial rel = .ok it) :
-    ∃ g, enumName Gen.srGraphicTypes3D gt = some g ∧ p.ndim = 2 ∧
+    ∃ g, enumName Gen.c13GraphicTypes3D gt = some g ∧ p.ndim = 2 ∧
       Gen.scoord3dCheck g p.rows.length p.d (firstEqLast p.rows) (coplanar p.rows) = .ok true ∧
       it = .mk .scoord3d ([("ValueType", .str "SCOORD3D"), ("ConceptNameCodeSequence", .code name)] ++ relPart rel ++
         ([("GraphicType", .str gt), ("GraphicData", .rats (p.rows.flatten.map fl)), ("ReferencedFrameOfReferenceUID", .str fo)]
@@ -446,7 +446,7 @@ theorem mkScoord3d_ok_iff (fl : Rat → Rat) (name : Coded) (gt : String) (p : P
   | ok a =>
     simp only [hb] at h
     have ha := (base_ok tableOk_scoord3d name rel a hb).1
-    cases hg : enumName Gen.srGraphicTypes3D gt with
+    cases hg : enumName Gen.c13GraphicTypes3D gt with
     | none => simp only [hg] at h; cases h
     | some g =>
       simp only [hg] at h
@@ -480,7 +480,7 @@ def tcoordStored (ds : Rat → Rat) : TArg → TArg
 
 theorem mkTcoord_ok_iff (ds : Rat → Rat) (name : Coded) (rt : String) (arg : Option TArg) (rel : Option String) (it : Item)
     (h : mkTcoord ds name rt arg rel = .ok it) :
-    enumHas Gen.srTemporalRangeTypes rt = true ∧ ∃ t, arg = some t ∧
+    enumHas Gen.c13TemporalRangeTypes rt = true ∧ ∃ t, arg = some t ∧
       it = .mk .tcoord ([("ValueType", .str "TCOORD"), ("ConceptNameCodeSequence", .code name)] ++ relPart rel ++ tcoordAttrs ds rt t) none := by
   unfold mkTcoord at h
   cases hb : base .tcoord name rel with
@@ -488,7 +488,7 @@ theorem mkTcoord_ok_iff (ds : Rat → Rat) (name : Coded) (rt : String) (arg : O
   | ok a =>
     simp only [hb] at h
     have ha := (base_ok tableOk_tcoord name rel a hb).1
-    by_cases hr : enumHas Gen.srTemporalRangeTypes rt = true
+    by_cases hr : enumHas Gen.c13TemporalRangeTypes rt = true
     · simp only [hr, Bool.not_true, Bool.false_eq_true, ↓reduceIte] at h
       refine ⟨hr, ?_⟩
       cases arg with
@@ -496,7 +496,7 @@ theorem mkTcoord_ok_iff (ds : Rat → Rat) (name : Coded) (rt : String) (arg : O
       | some t =>
         refine ⟨t, rfl, ?_⟩
         cases t <;> (simp only at h; cases h; rw [ha]; rfl)
-    · have : enumHas Gen.srTemporalRangeTypes rt = false := by simpa using hr
+    · have : enumHas Gen.c13TemporalRangeTypes rt = false := by simpa using hr
       simp [this] at h
 
 /-- well-formedness of anything of the shape the constructors produce -/
@@ -515,7 +515,7 @@ theorem shape_wf {cls : Cls} {vtName vt : String} {req : List String} (T : Table
 /-! ## nested content -/
 
 theorem classify_vt {attrs : Attrs} {cls : Cls} {attrs' : Attrs} (h : classify attrs = .ok (cls, attrs')) :
-    ∃ vt, attrs.lookup "ValueType" = some (.str vt) ∧ (enumName Gen.srValueTypes vt).isSome = true := by
+    ∃ vt, attrs.lookup "ValueType" = some (.str vt) ∧ (enumName Gen.c13ValueTypes vt).isSome = true := by
   unfold classify at h
   cases hv : attrs.lookup "ValueType" with
   | none => simp only [hv] at h; cases h
@@ -523,7 +523,7 @@ theorem classify_vt {attrs : Attrs} {cls : Cls} {attrs' : Attrs} (h : classify a
     cases v with
     | str vt =>
       simp only [hv] at h
-      cases hn : enumName Gen.srValueTypes vt with
+      cases hn : enumName Gen.c13ValueTypes vt with
       | none => simp only [hn] at h; cases h
       | some n => exact ⟨vt, rfl, by rw [hn]; rfl⟩
     | _ => simp only [hv] at h; cases h
@@ -650,7 +650,7 @@ inductive Built : Item → Prop
 /-! every built item carries a relationship type of the enumeration, or none -/
 
 theorem shape_relValid (cls : Cls) (vt : String) (name : Coded) (rel : Option String) (extra : Attrs)
-    (hv : ∀ r, rel = some r → enumHas Gen.srRelationshipTypes r = true) (he : extra.lookup "RelationshipType" = none) :
+    (hv : ∀ r, rel = some r → enumHas Gen.c13RelationshipTypes r = true) (he : extra.lookup "RelationshipType" = none) :
     relValid (Item.mk cls ([("ValueType", .str vt), ("ConceptNameCodeSequence", .code name)] ++ relPart rel ++ extra) none).attrs = true := by
   unfold relValid
   simp only [Item.attrs, lookup_rel vt name rel extra he]
@@ -789,13 +789,13 @@ theorem classify_noValueType (attrs : Attrs) (hvt : attrs.lookup "ValueType" = n
   unfold classify; simp only [hvt]
 
 theorem classify_unknownValueType (attrs : Attrs) (vt : String) (hvt : attrs.lookup "ValueType" = some (.str vt))
-    (hn : enumName Gen.srValueTypes vt = none) : classify attrs = .error .value := by
+    (hn : enumName Gen.c13ValueTypes vt = none) : classify attrs = .error .value := by
   unfold classify; simp only [hvt, hn]
 
 /-- a name-less data set of a class whose name is mandatory -/
 theorem classifyAs_noName {cls : Cls} {vtName vt : String} {req : List String} (T : TableOk cls vtName vt req) (attrs : Attrs)
     (hvt : attrs.lookup "ValueType" = some (.str vt)) (hreq : ∀ k ∈ req, has k attrs = true)
-    (hn : has "ConceptNameCodeSequence" attrs = false) (hopt : Gen.srOptionalNameClasses.contains cls.pyName = false) :
+    (hn : has "ConceptNameCodeSequence" attrs = false) (hopt : Gen.c13OptionalNameClasses.contains cls.pyName = false) :
     classifyAs cls attrs = .error .attribute := by
   unfold classifyAs
   simp only [T.asserts]
@@ -814,7 +814,7 @@ theorem parseAs_of_classifyAs_err (cls : Cls) (attrs : Attrs) (content : Option 
   unfold parseAs; simp only [h]
 
 theorem checkDataset_noRel (attrs : Attrs) (vt : String) (hvt : attrs.lookup "ValueType" = some (.str vt))
-    (hk : enumHas Gen.srValueTypes vt = true) (hr : has "RelationshipType" attrs = false) :
+    (hk : enumHas Gen.c13ValueTypes vt = true) (hr : has "RelationshipType" attrs = false) :
     checkDataset attrs false true = .error .attribute := by
   unfold checkDataset
   simp only [hvt, hk, Bool.not_true, Bool.false_eq_true, ↓reduceIte, hr, checkRel_missing]
